@@ -16,6 +16,9 @@ extern "C" {
 FILE *__real_fopen64(const char *, const char *);
 FILE *__real_fopen(const char *, const char *);
 int __real_remove(const char *);
+int __real_rename(const char *, const char *);
+int __real_unlink(const char *);
+int __real_access(const char *, int);
 int __real_fileno(FILE *);
 int __real_ftruncate64(int, off64_t);
 int __real_ftruncate(int, off_t);
@@ -57,7 +60,7 @@ struct State {
 	Rng chunk_rng;
 	std::vector<Fault> faults;
 	std::vector<char> spent;
-	uint64_t counts[OP_NKINDS] = {0, 0, 0, 0, 0, 0, 0};
+	uint64_t counts[OP_NKINDS] = {};
 	std::map<std::string, uint64_t> fired;
 	Stats stats;
 	std::vector<char *> dead_bufs;
@@ -361,6 +364,36 @@ int sim_remove(const char *path) {
 	return 0;
 }
 
+int sim_rename(const char *from, const char *to) {
+	State &s = S();
+	uint64_t idx = s.counts[OP_RENAME]++;
+	Op op; op.kind = OP_RENAME; op.path = from; op.path2 = to;
+	if (const Fault *f = match("rename", idx)) {
+		int e = errno_from_name(f->err);
+		if (!e) e = EACCES;
+		fire("rename", f->err);
+		op.err = e; op.fault = f->err; push(std::move(op)); errno = e; return -1;
+	}
+	auto it = s.files.find(from);
+	if (it == s.files.end()) { op.err = ENOENT; push(std::move(op)); errno = ENOENT; return -1; }
+	if (std::string(from) != to) {
+		// atomic replacement of the target; streams open on the file keep writing to it under its new name
+		auto moved = std::move(it->second);
+		s.files.erase(it);
+		s.files[to] = std::move(moved);
+		for (auto &h : s.handles) if (h && h->path == from) h->path = to;
+	}
+	push(std::move(op));
+	return 0;
+}
+
+int sim_access(const char *path) {
+	State &s = S();
+	if (s.files.find(path) != s.files.end()) return 0;
+	errno = ENOENT;
+	return -1;
+}
+
 Handle *handle_of_fd(int fd) {
 	State &s = S();
 	if (fd < FAKE_FD_BASE) return nullptr;
@@ -400,7 +433,7 @@ int sim_truncate(Handle &h, int64_t len) {
 } // namespace
 
 const char *kind_name(OpKind k) {
-	static const char *n[] = {"open", "write", "read", "seek", "truncate", "remove", "close"};
+	static const char *n[] = {"open", "write", "read", "seek", "truncate", "remove", "close", "rename"};
 	return (int)k >= 0 && k < OP_NKINDS ? n[k] : "?";
 }
 bool kind_from_name(const std::string &s, OpKind &k) {
@@ -494,45 +527,66 @@ size_t open_handles() {
 const Stats &stats() { return S().stats; }
 
 Image crash_image(const std::vector<Op> &log, const std::string &path, size_t k, uint64_t b, const Image &initial) {
-	Image img = initial;
-	// handles attached to the file currently named `path` (an unlinked file
-	// keeps receiving its handles' writes, but they no longer reach the path)
-	std::map<int, uint64_t> gen_of_handle;
-	uint64_t gen = 1;
+	// Replays the first k operations (plus b bytes of operation k) over *all* files, because a rename can
+	// bring the content of another file under the name we are asked about. A handle stays attached to the
+	// file object it was opened on: an unlinked (or replaced) file keeps receiving its handles' writes, but
+	// they no longer reach any name.
+	struct F { Image img; uint64_t gen = 1; };
+	std::map<std::string, F> files;
+	files[path].img = initial;
+	struct H { std::string path; uint64_t gen; };
+	std::map<int, H> hs;
 	auto apply_write = [&](const Op &op, uint64_t nbytes) {
-		auto it = gen_of_handle.find(op.handle);
-		if (it == gen_of_handle.end() || it->second != gen || !img.exists) return;
+		auto it = hs.find(op.handle);
+		if (it == hs.end()) return;
+		F &f = files[it->second.path];
+		if (f.gen != it->second.gen || !f.img.exists) return;
 		if (nbytes > op.bytes.size()) nbytes = op.bytes.size();
 		if (nbytes == 0) return;
-		if (op.off + nbytes > img.bytes.size()) img.bytes.resize(op.off + nbytes, 0);
-		memcpy(img.bytes.data() + op.off, op.bytes.data(), nbytes);
+		if (op.off + nbytes > f.img.bytes.size()) f.img.bytes.resize(op.off + nbytes, 0);
+		memcpy(f.img.bytes.data() + op.off, op.bytes.data(), nbytes);
 	};
 	size_t n = k < log.size() ? k : log.size();
 	for (size_t i = 0; i < n; i++) {
 		const Op &op = log[i];
 		switch (op.kind) {
-		case OP_OPEN:
-			if (op.err || op.path != path) break;
-			if (op.mode[0] == 'r') { if (img.exists) gen_of_handle[op.handle] = gen; break; }
-			if (!img.exists) { img.exists = true; img.bytes.clear(); gen++; }
-			else if (op.mode[0] == 'w') img.bytes.clear();
-			gen_of_handle[op.handle] = gen;
+		case OP_OPEN: {
+			if (op.err) break;
+			F &f = files[op.path];
+			if (op.mode[0] == 'r') { if (f.img.exists) hs[op.handle] = H{op.path, f.gen}; break; }
+			if (!f.img.exists) { f.img.exists = true; f.img.bytes.clear(); f.gen++; }
+			else if (op.mode[0] == 'w') f.img.bytes.clear();
+			hs[op.handle] = H{op.path, f.gen};
 			break;
+		}
 		case OP_WRITE: apply_write(op, op.done); break;
 		case OP_TRUNCATE: {
 			if (op.err) break;
-			auto it = gen_of_handle.find(op.handle);
-			if (it != gen_of_handle.end() && it->second == gen && img.exists) img.bytes.resize(op.off, 0);
+			auto it = hs.find(op.handle);
+			if (it == hs.end()) break;
+			F &f = files[it->second.path];
+			if (f.gen == it->second.gen && f.img.exists) f.img.bytes.resize(op.off, 0);
 			break;
 		}
 		case OP_REMOVE:
-			if (!op.err && op.path == path) { img.exists = false; img.bytes.clear(); gen++; }
+			if (!op.err) { F &f = files[op.path]; f.img.exists = false; f.img.bytes.clear(); f.gen++; }
 			break;
+		case OP_RENAME: {
+			if (op.err || op.path == op.path2) break;
+			F &src = files[op.path];
+			if (!src.img.exists) break;
+			uint64_t old_gen = src.gen;
+			F &dst = files[op.path2];
+			dst.img = src.img; dst.gen++;
+			src.img.exists = false; src.img.bytes.clear(); src.gen++;
+			for (auto &h : hs) if (h.second.path == op.path && h.second.gen == old_gen) { h.second.path = op.path2; h.second.gen = dst.gen; }
+			break;
+		}
 		default: break;
 		}
 	}
 	if (k < log.size() && b > 0 && log[k].kind == OP_WRITE) apply_write(log[k], b);
-	return img;
+	return files[path].img;
 }
 
 void arm_realloc(int64_t at, bool persistent) { g_ra_armed = true; g_ra_at = at; g_ra_persistent = persistent; g_ra_calls = 0; }
@@ -558,6 +612,19 @@ FILE *__wrap_fopen(const char *path, const char *mode) {
 int __wrap_remove(const char *path) {
 	if (is_sim_path(path)) return sim_remove(path);
 	return __real_remove(path);
+}
+int __wrap_unlink(const char *path) {
+	if (is_sim_path(path)) return sim_remove(path);
+	return __real_unlink(path);
+}
+int __wrap_rename(const char *from, const char *to) {
+	if (is_sim_path(from) && is_sim_path(to)) return sim_rename(from, to);
+	if (is_sim_path(from) || is_sim_path(to)) { errno = EXDEV; return -1; }
+	return __real_rename(from, to);
+}
+int __wrap_access(const char *path, int mode) {
+	if (is_sim_path(path)) return sim_access(path);
+	return __real_access(path, mode);
 }
 int __wrap_fileno(FILE *fp) {
 	if (fp) {
